@@ -382,7 +382,7 @@ def jobs(tier):
                    functions=['%s compiler<Policy>::build_dispatch_tables [next selection fragment] sha256:%s' % (ex.where(), ex.sha())],
                    trusted=TRUSTED + ['best() and is_base() replaced by stubs that are their contracts (P1-P4; pure function)'],
                    assumptions=['more-specific relation irreflexive and asymmetric (lemma job specificity/dom-lemmas)'],
-                   extracted=[ex], props=['C03'], timeout=900))
+                   extracted=[ex], props=['C03', 'C07'], timeout=900))
     ex, c = make_leaf()
     out.append(Job(unit='fragments', config='leaf-nc%d' % nc, c_text=c, entry='h_leaf',
                    unwind=nc + 2, kind='bounded', defines=['NC=%d' % nc], object_bits=12,
